@@ -1,4 +1,4 @@
-CONSTANTS Workers <- MCWorkers  MaxGen = 3  Cap = 0
+CONSTANTS Workers <- MCWorkers  MaxGen = 3  Cap = 0  ReleaseBeforeRefresh = TRUE  NonBlockingCancel = TRUE
 SPECIFICATION Spec
 INVARIANTS TypeOK NoBlockedSend LockOrder NoStuck
 CHECK_DEADLOCK FALSE
